@@ -281,6 +281,15 @@ class Enumerator:
             elif isinstance(n, (ast.Assign, ast.AnnAssign)):
                 tgts = n.targets if isinstance(n, ast.Assign) else [n.target]
                 for t in tgts:
+                    # accumulator spelled out: x = x + k
+                    if (
+                        isinstance(t, ast.Name)
+                        and isinstance(n.value, ast.BinOp)
+                        and isinstance(n.value.op, (ast.Add, ast.Sub, ast.Mult))
+                        and isinstance(n.value.left, ast.Name)
+                        and n.value.left.id == t.id
+                    ):
+                        out.add(t.id)
                     if isinstance(t, ast.Subscript):
                         b = t.value
                         while isinstance(b, (ast.Subscript, ast.Attribute)):
@@ -442,6 +451,17 @@ class Enumerator:
         if isinstance(t, ast.Name):
             if t.id in stateful:
                 p.env.pop(t.id, None)
+                # x = x + k  is the spelled-out form of  x += k
+                if (
+                    isinstance(v, ast.BinOp)
+                    and isinstance(v.op, (ast.Add, ast.Sub, ast.Mult))
+                    and isinstance(v.left, ast.Name)
+                    and strip_v(v.left.id) == t.id
+                    and not any(isinstance(n, ast.Name) and strip_v(n.id) == t.id for n in ast.walk(v.right))
+                ):
+                    p.effects.append(Effect("aug", st, recv=t.id, name=type(v.op).__name__, value=v.right, fi=fi))
+                    self._bump(p, t.id)
+                    return
                 self._bump(p, t.id)
                 p.effects.append(Effect("assign", st, recv=t.id, value=v, fi=fi))
             else:
@@ -495,7 +515,8 @@ class Enumerator:
             self._record_calls(st.iter, p, fi)
         assigned = self._assigned_in(st.body) | (set(_target_names(st.target)) if isinstance(st, ast.For) else set())
         mutated = self._mutated_in(st.body)
-        if self.o.loop_mode == "unroll":
+        depth = getattr(self, "_loop_depth", 0)
+        if self.o.loop_mode == "unroll" or (self.o.loop_mode == "inner-unroll" and depth >= 1):
             return self._loop_unroll(st, p, fi, stateful, assigned, mutated)
         # summary mode: one symbolic iteration from a havocked state
         q = p.fork()
@@ -506,7 +527,11 @@ class Enumerator:
             self._bump(q, n)
         for n in mutated:
             self._bump(q, n)
-        body = self._block(st.body, [q], fi, stateful)
+        self._loop_depth = depth + 1
+        try:
+            body = self._block(st.body, [q], fi, stateful)
+        finally:
+            self._loop_depth = depth
         for b in body:
             if b.exit is None:
                 b.exit = ("fall",)
@@ -560,7 +585,11 @@ class Enumerator:
                 else:
                     k = self._atom_key_for_truth(v)
                     vals.append((n, q.facts.get(k, "?") if k else "?"))
-            effs = tuple((e.kind, e.recv, e.name) for e in q.effects[base_effects:])
+            effs = tuple(
+                (e.kind, e.recv, e.name)
+                for e in q.effects[base_effects:]
+                if e.kind in ("aug", "store", "del", "assign") or (e.kind == "call" and e.name in MUTATORS)
+            )
             return (tuple(vals), effs)
 
         base_effects = len(p.effects)
@@ -897,6 +926,12 @@ class Enumerator:
                         res = [(q, v == r.value) for q, v in inner]
                     else:
                         res = self._decide(p, "is:" + U(l) + " is " + U(r))
+        elif isinstance(op, (ast.Eq, ast.NotEq)) and _boolish(l) and _boolish(r):
+            # equality of two boolean expressions: evaluate both sides
+            res = []
+            for p1, lv in self._truth_s(l, p, fi):
+                for p2, rv in self._truth_s(r, p1, fi):
+                    res.append((p2, lv == rv))
         elif isinstance(op, (ast.Eq, ast.NotEq)):
             cl, cr = self._const(l), self._const(r)
             if cl is not None and cr is not None:
